@@ -8,6 +8,9 @@ Decided:
     the token that peek_used returned (checked indexing); pop_used is called with that token.
  Q3 completion order: only peek_used (head of the used ring) selects what is delivered.
  Q4 exposure bound: the delivered slice is a checked sub-slice of the slot; no unchecked indexing on these paths.
+ Q6 no driver access to a posted buffer: after a driver-owned buffer has been handed to `add`, no statement reachable
+    from that call in the same function reads or writes the buffer's memory unless a pop_used lies in between
+    (the delivered value must have been copied out before the buffer was re-posted).
  Q5 initial stocking: each constructor of a stocked queue adds every buffer in a loop and propagates failure.
 Not decided: "exactly once, count returns to SIZE" over histories.
 """
@@ -19,7 +22,7 @@ EXPLANATION = ("The poll / pop functions are loop-free once the queue API is tre
                "path that delivers (or consumes) a completion is required to contain the re-posting add of the slot selected by the "
                "peeked token; stocking loops are found as queue adds inside CFG cycles of the constructors.")
 CONFIGS = ['def', 'alloc', 'def-rel']    # these drivers need the `alloc` feature
-FLOORS = {'deliver_paths': 3, 'consume_paths': 3, 'stocking_loops': 2, 'users': 3}
+FLOORS = {'post_sites': 2, 'deliver_paths': 3, 'consume_paths': 3, 'stocking_loops': 2, 'users': 3}
 
 
 def run(F, R):
@@ -49,6 +52,7 @@ def run(F, R):
         if any(f in byrole.get('peek_used', []) for f in fns) and any(f in byrole['pop_used'] for f in fns) and any(f in byrole['add'] for f in fns):
             q1_pop_readd(F, R, M, b, roles, byrole)
     q5_stocking(F, R, M, roles, byrole)
+    q6_no_access_after_post(F, R, M, roles)
     users = [n for n, a in F.adts.items() if a['kind'] == 'struct' and n not in (M.owning_adt,) and any(
         M.owning_adt in f['mentions'] for f in a['variants'][0]['fields'])]
     R.count('users', len(users) + 1)
@@ -228,3 +232,50 @@ def q5_stocking(F, R, M, roles, byrole):
             R.check(prop, 'Q5', '%s:stocking-loop' % b['id'], site(sg, a), 'every buffer is added in a loop and the result of add is examined',
                     'the stocking loop ignores the result of add')
     R.count('stocking_loops', n)
+
+
+def q6_no_access_after_post(F, R, M, roles):
+    nsites = 0
+    for b in F.bodies.values():
+        if not F.handwritten(b) or b.get('impl_adt') == M.queue_adt or b['kind'] not in ('AssocFn', 'Fn'):
+            continue
+        sg = supergraph(F, b['id'], opaque=lambda t, bb: bb['id'] in roles, tag='q6')
+        S = sg.sym
+        pops = [n.id for n in sg.calls(lambda d: roles.get(d.get('fn')) in ('pop_used',))]
+        for A in sg.calls(lambda d: roles.get(d.get('fn')) == 'add'):
+            objs = []
+            for ai in (1, 2):
+                elems = array_elems(S, S.operand(A.id, A.d['args'][ai]))
+                for e in elems or []:
+                    try:
+                        _, ty, base = elem_object(sg, S, e)
+                    except Exception:
+                        continue
+                    if base and base[0] == 'ref' and derives_from(base, lambda x: x == ('param', 1)) and \
+                            any(pp[0] == 'f' for x in subterms(base) if x[0] == 'loc' for pp in x[2]):
+                        objs.append(base[1])
+            if not objs:
+                continue
+            nsites += 1
+            after = sg.reach_fwd(list(A.succ), avoid=pops)
+            bad = None
+            for n in sg.nodes:
+                if n.id not in after or n.kind != 'assign' or n.id == A.id:
+                    continue
+                places = []
+                rv = n.d['rv']
+                if rv['rv'] == 'use':
+                    pl = rv['op'].get('copy') or rv['op'].get('move')
+                    if pl and pl['p']:
+                        places.append(('read', pl))
+                if n.d['place']['p']:
+                    places.append(('write', n.d['place']))
+                for kind, pl in places:
+                    loc = S.place_loc(n.id, pl)
+                    for o in objs:
+                        if loc[1] == o[1] and tuple(loc[2][:len(o[2])]) == tuple(o[2]):
+                            bad = '%s of %s at line %s after the buffer was posted at line %s' % (kind, fmt(loc)[:100], n.line, A.line)
+            R.check(bad is None, 'Q6', '%s:add@%s' % (b['id'], fmt(S.operand(A.id, A.d['args'][0]))[:50]), site(sg, A),
+                    'no access to the driver-owned buffer between posting it and the next pop_used',
+                    'a buffer owned by the device is accessed by the driver: %s' % bad)
+    R.count('post_sites', nsites)
